@@ -1,20 +1,22 @@
 """C17: a data-path argument means the value at that path in the validated document."""
 from .. import coqenc as E
-from ..passes import run_passes
+from ..passes import Case, run_passes
 from ..runner import jval
 from ..valgen import Gen, copy_value, twin_all
 from ..condgen import CondGen
 from ..rulegen import RuleGen
-from ..ruleterms import RuleT, obs_rule_test
+from ..ruleterms import RuleT, obs_rule_test, Tags, enc_arg1
 from ..pathterms import PathT, Prim
 from ..terms import Leaf, Bin, Null
 from . import c05
 
 PROP = "C17"
-IMPORTS = c05.IMPORTS
-THEOREMS = ['C17_subst', 'C17_rule_verdict', 'C17_rule_verdict_with_casts', 'C17_unresolvable_fails', 'C17_resolution_caught']
+IMPORTS = c05.IMPORTS + " RuleTerms NestedArgs"
+THEOREMS = ['C17_subst', 'C17_rule_verdict', 'C17_rule_verdict_with_casts', 'C17_unresolvable_fails', 'C17_resolution_caught',
+            'C17_nested_extends', 'C17_nested_resolution', 'C17_nested_subst', 'C17_nested_rule_verdict', 'C17_nested_rule_verdict_with_casts',
+            'C17_nested_unresolvable_fails']
 FACT_LEMMAS = ['C17Proof.C17_resolution_errors_caught']
-DEPENDS = ['Py.v', 'Lang.v', 'Defs.v', 'Cond.v', 'Dsl.v', 'Check.v', 'DocSem.v', 'Inst.v', 'Gen/TablesGen.v', 'Gen/CallablesGen.v', 'Gen/SpecGen.v', 'Path.v', 'Cast.v', 'Str.v', 'SpecDefs.v', 'RuleDefs.v', 'Rule.v', 'Spec.v', 'SpecIO.v', 'Descr.v', 'Eq.v', 'RunSpec.v', 'SpecSpell.v', 'Proofs/Tie.v', 'Proofs/PyFacts.v', 'Proofs/C01Proof.v', 'Proofs/C02Proof.v', 'Proofs/RuleProof.v', 'Proofs/C03Proof.v', 'Proofs/C04Proof.v', 'RuleSpec.v', 'RuleTerms.v', 'PathSpec.v', 'RunRule.v', 'Run.v', 'C17Defs.v', 'Proofs/C17Proof.v', 'Properties/C17.v']
+DEPENDS = ['Py.v', 'Lang.v', 'Defs.v', 'Cond.v', 'Dsl.v', 'Check.v', 'DocSem.v', 'Inst.v', 'Gen/TablesGen.v', 'Gen/CallablesGen.v', 'Gen/SpecGen.v', 'Path.v', 'Cast.v', 'Str.v', 'SpecDefs.v', 'RuleDefs.v', 'Rule.v', 'Spec.v', 'SpecIO.v', 'Descr.v', 'Eq.v', 'RunSpec.v', 'SpecSpell.v', 'Proofs/Tie.v', 'Proofs/PyFacts.v', 'Proofs/C01Proof.v', 'Proofs/C02Proof.v', 'Proofs/RuleProof.v', 'Proofs/C03Proof.v', 'Proofs/C04Proof.v', 'RuleSpec.v', 'RuleTerms.v', 'PathSpec.v', 'RunRule.v', 'Run.v', 'C17Defs.v', 'Proofs/C17Proof.v', 'NestedArgs.v', 'Proofs/C17NestedProof.v', 'Properties/C17.v']
 ASSUMPTIONS = ["Layer P models CPython's operators (pysem)"]
 
 
@@ -37,6 +39,39 @@ def substitute(cond, doc):
         return Leaf(cond.cls, cond.method, [res(a) for a in cond.args], {k: res(a) for k, a in cond.kwargs.items()})
     except Exception:
         return None
+
+
+CASTS_N = {"bool": "(TStr, CastStrBool)", "int": "(TStr, CastStrInt)"}
+
+
+def enc_narg(tags):
+    """An argument as a term of NestedArgs.narg: a literal or a path (NA), a list / tuple with path items (NItems), a mapping with
+    path values (NDict)."""
+    a1 = enc_arg1(tags)
+
+    def enc(a):
+        if isinstance(a, (list, tuple)) and any(isinstance(x, PathT) for x in a):
+            return f"(NItems {E.enc_bool(isinstance(a, tuple))} [" + "; ".join(a1(x) for x in a) + "])"
+        if isinstance(a, dict) and any(isinstance(x, PathT) for x in a.values()):
+            return "(NDict [" + "; ".join(f"({E.enc_val(k)}, {a1(x)})" for k, x in a.items()) + "])"
+        return f"(NA {a1(a)})"
+    return enc
+
+
+def nested_case(rt, doc):
+    """A rule with a data path inside a list / mapping argument, against NestedArgs.run_rule_test_n."""
+    outcome = E.run_outcome(lambda: c05.impl_rule_test(rt, copy_value(doc)))
+    try:
+        tags = Tags()
+        casts = "[" + "; ".join(CASTS_N[c] for c in rt.cast[:1]) + "]"
+        rc = f"{{| rtn_path := {rt.path.coq()}; rtn_cond := {rt.cond.coq(enc_narg(tags))}; rtn_cast := {casts} |}}"
+        model = f"(run_rule_test_n {rc} {E.enc_val(doc)})"
+        impl = E.enc_res(outcome, E.ObjTags())
+    except E.Unencodable:
+        return None
+    nontrivial = outcome[0] == "ok" and outcome[1][0][1] and not outcome[1][0][0]
+    return Case({"rule": rt.descr()[:500], "doc": jval(doc), "nested": True, "impl": outcome[0] + ":" + repr(outcome[1])[:400], "coq": model[:4000]},
+                model, None, impl, outcome, nontrivial, key=(rt.descr(), repr(doc)[:60]))
 
 
 def type_sensitive_rule(g, rg, doc):
@@ -86,7 +121,12 @@ def run(tier, seed, model_ok, spec_ok, replay=None):
             cases.append(c)
             out = c.outcome
         else:
-            out = E.run_outcome(lambda: c05.impl_rule_test(rt, copy_value(doc)))
+            nc = nested_case(rt, doc)
+            if nc:
+                cases.append(nc)
+                out = nc.outcome
+            else:
+                out = E.run_outcome(lambda: c05.impl_rule_test(rt, copy_value(doc)))
             nested_n += 1
         if out[0] == "ok" and g.r.random() < 0.5:
             # ONE rule object judging first an == but differently typed document (1 / True / 1.0), then this one: what a path
